@@ -274,6 +274,22 @@ def check_unit(u, scratch, args):
             oid = f"lemma:{short}"
             st = "discharged" if v["success"] else "failed"
             res["obligations"].append({"id": oid, "item": "spec", "kind": "lemma", "status": st, "back_end": "verus/z3"})
+    # syntactic obligations: attributes that N2 strips but that carry meaning (e.g. #[track_caller] on a registration
+    # method: without it `Location::caller()` reports a line inside pavex instead of the user's call site)
+    for attr, ids in u.get("require_attrs", {}).items():
+        by_id = {it["id"]: it for it in meta["items"]}
+        for iid in ids:
+            it = by_id.get(iid)
+            if it is None:
+                res["undecided"].append(f"anchor lost: require_attrs names `{iid}` which is not extracted")
+                continue
+            oid = f"{iid}.has_attribute[{attr}]"
+            ok = attr in it.get("attrs", [])
+            res["obligations"].append({"id": oid, "item": iid, "kind": "syntactic", "status": "discharged" if ok else "failed",
+                                       "back_end": "extractor (syntactic)"})
+            if not ok:
+                res["failures"].append({"obligation": oid, "item": iid, "spans": [],
+                                        "message": f"`{iid}` no longer carries #[{attr}]"})
     if not meta["obligations"]:
         res["undecided"].append("vacuity: the unit registers zero obligations")
 
@@ -289,7 +305,7 @@ def check_unit(u, scratch, args):
         cbd = fn_breakdown(cout)
         twins = {k: v for k, v in cbd.items() if k.endswith("__canary")}
         expected = [it["fn_name"] + "__canary" for it in json.load(open(cmeta))["items"]
-                    if it.get("is_fn") and it.get("contracted")]
+                    if it.get("is_fn") and it.get("contracted") and not it.get("no_canary")]
         expected.append("prelude_consistency__canary")
         # lemma twins (spec files): every proof fn checked in the main run has a twin with `ensures false`
         for k, v in bd.items():
